@@ -83,6 +83,8 @@ def _shift_block(b, loff, boff):
         _shift_place(t['p'], loff)
     elif k == 'yield':
         _shift_place(t['resume_arg'], loff)
+        if isinstance(t.get('v'), dict):
+            _shift_operand(t['v'], loff)
 
 
 def _callee_path(t):
@@ -91,6 +93,13 @@ def _callee_path(t):
     if not c:
         return None
     return c.get('res') or c.get('fn')
+
+
+def _fn_path(t):
+    """the generic (unresolved) callee path of a call terminator"""
+    f = t.get('f') or {}
+    c = f.get('k')
+    return (c.get('fn') if c else None) or ''
 
 
 def _split_args(ty):
@@ -308,11 +317,175 @@ def expand_combinators(records, strip):
     return records, log
 
 
+def inline_async(records, strip):
+    """a NEW `async fn` helper (its constructor and its coroutine body are not on the reviewed list) awaited by a function of the reviewed
+    tree is merged into the awaiting coroutine: the constructor call becomes the coroutine aggregate, the poll of that future becomes
+    the helper's body (its own awaits keep their yields), the helper's `return v` becomes `Poll::Ready(v)` on the Ready edge of the
+    original await. Extracting a few awaits of `send` / `join` / a driver operation into a helper therefore changes nothing for the rules."""
+    known = known_functions()
+    by_path = {}
+    for r in records:
+        by_path.setdefault(strip(r['path']), []).append(r)
+    wrappers = {}
+    for p, l in by_path.items():
+        if len(l) != 1 or p in known or '{closure' in p:
+            continue
+        r = l[0]
+        ret = r['locals'][0] if r.get('locals') else ''
+        if not (isinstance(ret, str) and ret.startswith('impl ') and 'future::Future<' in ret) or len(r['blocks']) > 3:
+            continue
+        aggs = [s_ for b in r['blocks'] for s_ in b['s'] if s_['k'] == 'assign' and s_['rv']['k'] == 'agg' and s_['rv'].get('ak') == 'coroutine' and s_['lhs']['l'] == 0 and not s_['lhs']['p']]
+        if len(aggs) != 1:
+            continue
+        cpath = strip(aggs[0]['rv']['def'])
+        if cpath in known or len(by_path.get(cpath, [])) != 1 or not by_path[cpath][0].get('coroutine'):
+            continue
+        ops = aggs[0]['rv']['ops']
+        idx = []
+        for o in ops:
+            pl = o.get('m') or o.get('c')
+            if pl is None or pl.get('p') or not (1 <= pl['l'] <= r['argc']):
+                idx = None
+                break
+            idx.append(pl['l'] - 1)
+        if idx is None:
+            continue
+        wrappers[p] = (aggs[0]['rv'], idx, by_path[cpath][0])
+    log = {}
+    dbg = os.environ.get('LRS_DEBUG_INLINE')
+    if dbg:
+        print('async wrappers:', sorted(wrappers))
+    if not wrappers:
+        return records, log
+    for r in records:
+        if strip(r['path']) in wrappers or r.get('stage') == 'promoted':
+            continue
+        done = 0
+        i = 0
+        while i < len(r['blocks']) and done < 16:
+            b = r['blocks'][i]
+            i += 1
+            t = b['t']
+            if t['k'] != 'call' or b.get('cleanup') or t.get('t') is None:
+                continue
+            cp = _callee_path(t)
+            w = wrappers.get(strip(cp)) if cp else None
+            if w is None or t['dest'].get('p') or any(k >= len(t['args']) for k in w[1]):
+                continue
+            rv0, idx, crec = w
+            lf = t['dest']['l']
+            # the future's by-value aliases, the references to them and the pins of those references
+            vals, refs, pins = {lf}, set(), set()
+            changed = True
+            while changed:
+                changed = False
+                for b2 in r['blocks']:
+                    for s_ in b2['s']:
+                        if s_['k'] != 'assign' or s_['lhs'].get('p'):
+                            continue
+                        l_, rv = s_['lhs']['l'], s_['rv']
+                        if rv['k'] == 'use':
+                            pl = rv['o'].get('m') or rv['o'].get('c')
+                            if pl is not None and not pl.get('p'):
+                                for S in (vals, refs, pins):
+                                    if pl['l'] in S and l_ not in S:
+                                        S.add(l_)
+                                        changed = True
+                        elif rv['k'] == 'ref':
+                            pl = rv['p']
+                            if not pl.get('p') and pl['l'] in vals and l_ not in refs:
+                                refs.add(l_)
+                                changed = True
+                            if pl.get('p') == ['*'] and pl['l'] in refs and l_ not in refs:
+                                refs.add(l_)
+                                changed = True
+                    t2 = b2['t']
+                    if t2['k'] == 'call' and not t2['dest'].get('p') and t2['args']:
+                        c2 = _sg(_fn_path(t2))
+                        a0 = t2['args'][0].get('m') or t2['args'][0].get('c')
+                        if a0 is None or a0.get('p'):
+                            continue
+                        if c2.endswith('IntoFuture::into_future') and a0['l'] in vals and t2['dest']['l'] not in vals:
+                            vals.add(t2['dest']['l'])
+                            changed = True
+                        if c2.endswith('Pin::new_unchecked') and a0['l'] in refs and t2['dest']['l'] not in pins:
+                            pins.add(t2['dest']['l'])
+                            changed = True
+            polls = [b2 for b2 in r['blocks'] if b2['t']['k'] == 'call' and not b2.get('cleanup') and _sg(_fn_path(b2['t'])).endswith('Future::poll') and b2['t']['args'] and
+                     (lambda a0: a0 is not None and not a0.get('p') and a0['l'] in pins)(b2['t']['args'][0].get('m') or b2['t']['args'][0].get('c'))]
+            if dbg:
+                print('await of', strip(cp), 'in', strip(r['path']), 'vals', sorted(vals), 'refs', sorted(refs), 'pins', sorted(pins), 'polls', len(polls))
+            if len(polls) != 1 or polls[0]['t'].get('t') is None or polls[0]['t']['dest'].get('p'):
+                continue
+            pb = polls[0]
+            # the local that holds the future when it is polled: the value the pinned reference points to
+            held = None
+            for b2 in r['blocks']:
+                for s_ in b2['s']:
+                    if s_['k'] == 'assign' and s_['rv']['k'] == 'ref' and not s_['rv']['p'].get('p') and s_['rv']['p']['l'] in vals and s_['lhs']['l'] in refs:
+                        held = s_['rv']['p']
+            if held is None:
+                continue
+            sp, exp = t.get('sp'), t.get('exp')
+            # 1. the constructor call becomes the coroutine aggregate
+            agg = copy.deepcopy(rv0)
+            agg['ops'] = [copy.deepcopy(t['args'][k]) for k in idx]
+            b['s'].append({'k': 'assign', 'lhs': t['dest'], 'rv': agg, 'sp': sp, 'exp': exp})
+            b['t'] = {'k': 'goto', 't': t['t'], 'sp': sp}
+            # 2. the poll becomes the helper's body
+            pt = pb['t']
+            rl, ready_bb = pt['dest'], pt['t']
+            callee = copy.deepcopy(crec)
+            rvs = [{'k': 'use', 'o': {'m': {'l': held['l'], 'p': [], 'ty': held.get('ty')}}}]
+            if callee['argc'] >= 2:
+                rvs.append({'k': 'use', 'o': {'c': {'l': 2, 'p': [], 'ty': r['locals'][2] if len(r['locals']) > 2 else 'core::future::ResumeTy'}}} if r.get('coroutine') else None)
+                if rvs[-1] is None:
+                    rvs.pop()
+            vl = len(r['locals'])
+            r['locals'] = r['locals'] + [callee['locals'][0]]
+            r['blocks'].append({'s': [{'k': 'assign', 'lhs': rl, 'rv': {'k': 'agg', 'ak': 'adt', 'adt': 'core::task::poll::Poll', 'variant': 'Ready', 'vidx': 0, 'is_enum': True, 'fields': ['0'],
+                                                                    'ops': [{'m': {'l': vl, 'p': [], 'ty': callee['locals'][0]}}]}, 'sp': sp, 'exp': exp}],
+                                't': {'k': 'goto', 't': ready_bb, 'sp': sp}, 'cleanup': False})
+            wrap_bb = len(r['blocks']) - 1
+            _splice(r, pb, callee, rvs, {'l': vl, 'p': [], 'ty': callee['locals'][0]}, wrap_bb, sp, exp)
+            # 3. the future is Ready when the body returns: the Pending edge of the original await is dead
+            tb = r['blocks'][ready_bb]
+            if tb['t']['k'] == 'switch' and any(s_['k'] == 'assign' and s_['rv']['k'] == 'discr' and s_['rv']['p']['l'] == rl['l'] for s_ in tb['s']):
+                tgt = [x for v_, x in tb['t']['ts'] if v_ == 0]
+                if tgt:
+                    tb['t'] = {'k': 'goto', 't': tgt[0], 'sp': sp}
+            log.setdefault(strip(r['path']), []).append(strip(crec['path']))
+            done += 1
+    merged = {c_ for v in log.values() for c_ in v}
+    if merged:
+        # helpers that were merged everywhere are no separate program points any more
+        still = set()
+        for r in records:
+            for b in r['blocks']:
+                if b['t']['k'] == 'call':
+                    cp = _callee_path(b['t'])
+                    if cp and strip(cp) in wrappers:
+                        still.add(strip(wrappers[strip(cp)][2]['path']))
+        drop = set()
+        for p, (rv0, idx, crec) in wrappers.items():
+            cpth = strip(crec['path'])
+            if cpth in merged and cpth not in still:
+                drop |= {p, cpth}
+        records = [r for r in records if strip(r['path']) not in drop]
+    return records, log
+
+
 def inline_unknown(records, strip):
     """records: list of body dicts of one configuration (all crates). Returns (records, log). `strip` maps a raw path to
     the stripped path used as key."""
     known = known_functions()
     records, clog = expand_combinators(records, strip)
+    if os.environ.get('LRS_ASYNC_INLINE'):
+        # experimental, off by default: merging the helper's returns into one join block loses the correlation between the value
+        # returned and the caller's `?` branch, which the must-pass-through rules of C06 rely on (DESIGN A.6)
+        records, alog = inline_async(records, strip)
+        for k_, v_ in alog.items():
+            clog.setdefault(k_, []).extend(v_)
     by_path = {}
     for r in records:
         by_path.setdefault(strip(r['path']), []).append(r)
